@@ -160,6 +160,25 @@ A1(pad) ==
             /\ d' = [d EXCEPT !.pc = "a2", !.padA = pad]
             /\ UNCHANGED <<sc, att, c, ba>>
 
+(***************************************************************************)
+(* Fragmentation axis of the first read (round 3).  The peer's first       *)
+(* message is Y(96) Pad(pad) and nothing follows until we answer, so a     *)
+(* first read returns 96 .. 96+pad bytes.  Classes against that message:   *)
+(*   "key"   fr = 96          the transport delivered the key only: the    *)
+(*                            whole pad is left to the synchronisation scan*)
+(*   "inpad" 96 < fr < 96+pad the read ends inside the pad                 *)
+(*   "whole" fr = 96+pad      key and pad in one read (what io.Pipe and    *)
+(*                            loopback TCP do)                             *)
+(* FragFr(pad) = the boundary-dense first-read sizes of every class; the   *)
+(* model-checking configurations explore them and MC_MSE prints the        *)
+(* (PadA, PadB, frA, frB) cases that harness/c12 replays (fam "frag").     *)
+(* ScanEdgePads = pad lengths at which the remaining scan budget of a      *)
+(* "key"/"inpad" read crosses the length of the marker (8 resp. 20).       *)
+(***************************************************************************)
+FragClass(pad, fr) == IF fr = 96 + pad THEN "whole" ELSE IF fr = 96 THEN "key" ELSE IF fr < 96 + pad THEN "inpad" ELSE "beyond"
+FragFr(pad) == {96, 96 + (pad \div 2), 96 + pad - 1, 96 + pad} \cap (96 .. 96 + pad)
+ScanEdgePads == {512 - 20, 512 - 20 + 1, 512 - 8, 512 - 8 + 1}
+
 \* first read   mse.go:134-141 : io.ReadAtLeast(raw, b[608], 96)
 A2(fr) ==
     /\ d.pc = "a2"
